@@ -8,8 +8,7 @@
    the connected flag and the cleaning of partitions; `env_ok` is the contract it keeps
    (limit_within_window, clean_before_reuse, the driver never cleans a partition that is in use) together
    with the application's discipline on its one BufferClaim (commit / abort exactly once, nothing else
-   published while the claim is open) and the range this property speaks about (not the last term of the
-   position space, lengths an i32 can carry).
+   published while the claim is open) and the range this property speaks about (lengths an i32 can carry).
    Definitions only. *)
 Require Import V.Base.MachineInt.
 Require Import V.Generated.GenConsts.
@@ -131,11 +130,11 @@ Definition env_ok (F : flavour) (m : mode) (s : sys F) (o : sop) : bool :=
   let n := l_count l in
   let tl := l_tlen l in
   let sp := im_pos (sy_img s) in
-  (n <? two31 - 1) &&                                   (* not the last term of the position space *)
   match o with
   | SOffer _ len | SClaim len => append_ok F m s len
   | SCommit _ | SAbort => sy_open s
-  | SSetLimit v => v <=? sp + tl                        (* limit_within_window *)
+  | SSetLimit v =>                                      (* limit_within_window; the window is at most half a term beyond the *)
+      (v <=? sp + tl) && (v <=? tl * two31 + tl / 2)    (* end of the position space (Proofs/PublicationProofs.v limit_ok)  *)
   | SClean i =>                                         (* only a partition nobody uses *)
       (0 <=? i) && (i <? 3) && negb (i =? n mod 3) &&
       (negb (sp / tl <=? n - 1) || negb (i =? (n - 1) mod 3)) &&
@@ -150,22 +149,25 @@ Fixpoint contract (F : flavour) (m : mode) (rv : Z -> Z -> list Z -> Z) (s : sys
   end.
 
 (* ---- what the abstract machine of Spec/Stream.v is fed with ---- *)
-Definition event_of (p : pubstate) (o : sop) (x : rres) : event :=
+Definition event_of (p : pubstate) (o : sop) (x : rres) (q : outcome Z) : event :=
   let '(r, _, ms) := x in
   match o with
-  | SOffer k len => EvOffer (payload k len) r
-  | SClaim len => EvClaim len r
+  | SOffer k len => EvOffer (payload k len) r q
+  | SClaim len => EvClaim len r q
   | SCommit k => EvCommit (payload k (claimed_len p))
   | SAbort => EvAbort
   | SPoll _ => EvPoll (map snd ms)
   | _ => EvEnv
   end.
 
+(* the event of one step: the operation, its result, and position() right after it *)
+Definition step_event (F : flavour) (m : mode) (rv : Z -> Z -> list Z -> Z) (s : sys F) (o : sop) : event :=
+  event_of (fl_pub F (sy_pub s)) o (snd (sys_step F m rv s o)) (fl_position F m (sy_pub (fst (sys_step F m rv s o)))).
+
 Fixpoint sys_events (F : flavour) (m : mode) (rv : Z -> Z -> list Z -> Z) (s : sys F) (ops : list sop) : list event :=
   match ops with
   | [] => []
-  | o :: r => let '(s', x) := sys_step F m rv s o in
-              event_of (fl_pub F (sy_pub s)) o x :: sys_events F m rv s' r
+  | o :: r => step_event F m rv s o :: sys_events F m rv (fst (sys_step F m rv s o)) r
   end.
 
 (* ---- initial states ---- *)
